@@ -583,6 +583,17 @@ def check(ctx: Ctx):
     ctx.expect("MUTDEFAULT", 5)
     ctx.expect("STATELESS", 1)
     check_locators(ctx)
+    # the class of a refined result is the class refine_droplet returns, with one process or many: both arms of
+    # refine_droplets hand out the callee's own results
+    from . import c15 as _c15
+
+    sub_s = Ctx(ctx.model, ctx.prop, ctx.tier)
+    for fi_, ifn_ in _c15.discover_splits(ctx.model):
+        if fi_.qualname == f"{IMG}.refine_droplets":
+            _c15.check_split(sub_s, fi_, ifn_)
+    ctx.findings.extend(f for f in sub_s.findings if f.rule == "PARMAP")
+    ctx.functions |= sub_s.functions
+    ctx.expect("PARMAP", 6)
     io.check_layouts(ctx)
     setter = m.func(f"{DROP}.DiffuseDroplet.interface_width@setter")
     nonetest.check(ctx, setter, setter.params[1], "the interface width being set")
